@@ -210,6 +210,8 @@ def fill_case(rng, cid, dims, monodim, kind, sparse, big=False, amp_override=Non
             v = 1.5
         elif kind == "noisy_flat":
             v = 1.0
+        elif kind == "increasing-convex":
+            v = 0.5435 + xm * xm + 0.01 * other          # smooth and increasing on the data range: the constraint ends up inactive
         else:
             v = 0.0
             for m, cm in coef.items():
@@ -219,7 +221,7 @@ def fill_case(rng, cid, dims, monodim, kind, sparse, big=False, amp_override=Non
                     if pr == 0.0:
                         break
                 v += pr
-        if kind not in ("monospline", "constant") or (kind == "monospline" and rng.chance(0.15) and noise and False):
+        if kind not in ("monospline", "constant", "increasing-convex") or (kind == "monospline" and rng.chance(0.15) and noise and False):
             v += noise * (rng.unit() - 0.5)
         v *= amp
         w = rng.choice([1.0, 1.0, 1.0, 0.5, 2.0, 4.0, 0.25]) if rng.chance(0.5) else 1.0
@@ -324,6 +326,11 @@ def struct_plan(rng, tier):
     for nd, pos in POSITIONS[1:]:
         for mono in (True, False):
             plan.append({"cls": "unequal", "short": 1 + (pos + nd + mono) % 2, "ndim": nd, "pos": pos, "mono": mono})
+    # a LONG monotonic axis (60..110 basis functions, several of them without data under them, penalty order >= 2): the sizes at which
+    # the solver's factor is modified row by row instead of being recomputed, and coefficients re-enter the free set several at a time
+    for q in range(3 if tier == "quick" else 10):
+        plan.append({"cls": "long-mono", "ndim": 1 if q % 3 != 2 else 2, "pos": 0 if q % 2 == 0 else (q % 3 == 2) * 1, "mono": True,
+                     "nlong": [70, 61, 96, 110, 64, 83, 100, 75, 90, 66][q]})
     return plan
 
 def gen_case_struct(rng, cid, desc):
@@ -377,6 +384,27 @@ def gen_case_struct(rng, cid, desc):
             nspl = desc["nspl"]
             order = rng.choice([1, 2, 3])
             dims[pos] = dim_fixed(rng, order, nspl, rng.rint(0, 1), rng.choice(NONZERO_SMOOTH) if nspl > 1 else rng.choice([0.0] + NONZERO_SMOOTH), 1, plain=True)
+        elif cls == "long-mono":
+            order = rng.choice([2, 2, 3, 1])
+            nlong = desc["nlong"]
+            for k in range(nd):
+                dims[k] = dim_fixed(rng, 1, rng.choice([1, 2]), 0, rng.choice([0.0, 2.0 ** -3]), rng.rint(1, 2), plain=True)
+            nk = nlong + order + 1
+            a, b = -0.25, 1.25
+            knots = [a + (b - a) * i / (nk - 1) for i in range(nk)]
+            lo, hi = rng.choice([(0.0, 1.0), (0.0, 1.0), (0.1, 0.8), (-0.25, 1.0)])
+            npts = rng.choice([150, 200, 120])
+            coords = sorted(set(lo + (hi - lo) * (i + rng.choice([0.0, 0.5, rng.unit()])) / npts for i in range(npts)))
+            dims[pos] = {"order": order, "porder": min(order, rng.choice([2, 2, 1, 3])), "smooth": rng.choice([2.0 ** -20, 2.0 ** -10, 2.0 ** -3, 1.0]),
+                         "knots": knots, "coords": coords}
+            kind = rng.choice(["monospline", "increasing-convex", "increasing-convex", "increasing-convex"] + KINDS[:3])
+            if kind in ("monospline", "increasing-convex"):
+                # values far above the solver's ABSOLUTE exit tolerance (and data inside [0, 1], where x^2 increases), so that
+                # "constraint inactive" can be certified in spite of the conditioning of a long axis
+                amp_override = rng.choice([1000.0, 1.0e6, 1.0e9])
+                if lo < 0.0:
+                    coords = sorted(set(abs(x) for x in coords))
+                dims[pos]["coords"] = coords
         elif cls == "unequal":
             for k in range(nd):
                 o = rng.choice([1, 2])
